@@ -154,8 +154,10 @@ def run_C19(ctx):
 def c14_corpus(ctx):
     rnd = random.Random(ctx.seed * 31337 + 5)
     gs = []
-    for k in ('expr', 'ambig_prec', 'nullable_chain', 'lalr_paths', 'includes_cycle', 'deep_nullable', 'dangling_else', 'rr_three'):
+    for k in ('expr', 'ambig_prec', 'nullable_chain', 'lalr_paths', 'includes_cycle', 'deep_nullable', 'dangling_else', 'rr_three', 'ring3', 'chain_two_contexts', 'ring2_nullable'):
         gs.append(('c_' + k, genrun.fix_tags(gram.curated()[k])))
+    for i in range(6 if ctx.quick else 40):
+        gs.append(('ring%d' % i, genrun.fix_tags(gram.ring_grammar(rnd, nullable=bool(i % 2)))))
     n = 14 if ctx.quick else 120
     for i in range(n):
         kind = i % 4
@@ -188,7 +190,7 @@ def run_C14(ctx):
     work = os.path.join(vlib.WORK, 'c14-%d' % os.getpid())
     shutil.rmtree(work, ignore_errors=True)
     os.makedirs(work)
-    nruns = 6 if ctx.quick else 40
+    nruns = 8 if ctx.quick else 40
     texts = c14_corpus(ctx)
     jobs = []
     for gi, (name, gotext, tstext) in enumerate(texts):
